@@ -1,10 +1,11 @@
 """Translator plug-in for C08: ties the hand-written Lean model to the *text* of the modelled functions.
 
-For each modelled function the comment-stripped, whitespace-free body must be one of the forms the
-Lean model was written from.  Four functions have a single modelled form; three have two (the code
-as found, and the code after the repair proposed in fixes/C08-*.diff) and the form found is exported
-as a Bool in lean/AITB/Gen/C08Variant.lean, which the driver uses to pick the model of the code that
-exists.  A body in no known form is a broken tie (ExtractError): the model no longer describes it."""
+For each modelled function the comment-stripped, whitespace-free body must be the form the Lean model
+was written from (round 2: the code after the three merged repairs 7704892 / 699bf84 / 3edb50d; the
+pre-repair forms are no longer accepted).  `projectToProbability` has two accepted texts that have the
+SAME exact-arithmetic model: the code as it is, and the code after fixes/C08-4 (overflow-safe
+normalisation); which one is present is exported as `projectOverflowSafe`.  A body in no known form is
+a broken tie (ExtractError): the model no longer describes it."""
 import re
 import extract as E
 
@@ -38,24 +39,21 @@ SITES = [
         '{doublep=0.0;for(size_ti=0;i<size;++i){constdoublevalue=static_cast<double>(in[i]);if(value<0.0)returnfalse;p+=value;}if(checkDifferentSmall(p,1.0))returnfalse;returntrue;}': None}),
     ('denseSampler', HPP, r'size_t\s+sampleProbability\s*\(\s*const\s+size_t\s+d\s*,\s*const\s+T\s*&\s*in\s*,\s*G\s*&\s*generator\s*\)\s*\{', {
         '{doublep=probabilityDistribution(generator);for(size_ti=0;i<d;++i){if(in[i]>p)returni;p-=in[i];}returnd-1;}': None}),
-    ('sparseHasEndTest', HPP, r'size_t\s+sampleProbability\s*\(\s*const\s+size_t\s+d\s*,\s*const\s+SparseMatrix2D::ConstRowXpr\s*&\s*in\s*,\s*G\s*&\s*generator\s*\)\s*\{', {
-        '{doublep=probabilityDistribution(generator);for(SparseMatrix2D::ConstRowXpr::InnerIteratori(in,0);;++i){if(i.value()>p)returni.col();p-=i.value();}returnd-1;}': False,
-        '{doublep=probabilityDistribution(generator);size_tlast=d-1;for(SparseMatrix2D::ConstRowXpr::InnerIteratori(in,0);i;++i){if(i.value()>p)returni.col();p-=i.value();last=i.col();}returnlast;}': True}),
+    ('sparseSampler', HPP, r'size_t\s+sampleProbability\s*\(\s*const\s+size_t\s+d\s*,\s*const\s+SparseMatrix2D::ConstRowXpr\s*&\s*in\s*,\s*G\s*&\s*generator\s*\)\s*\{', {
+        '{doublep=probabilityDistribution(generator);size_tlast=d-1;for(SparseMatrix2D::ConstRowXpr::InnerIteratori(in,0);i;++i){if(i.value()>p)returni.col();p-=i.value();last=i.col();}returnlast;}': None}),
     ('makeRandomProbability', HPP, r'ProbabilityVector\s+makeRandomProbability\s*\(\s*const\s+size_t\s+S\s*,\s*G\s*&\s*generator\s*\)\s*\{', {
         '{ProbabilityVectorb(S);double*bData=b.data();bData[0]=0.0;for(size_ts=0;s<S-1;++s)bData[s]=probabilityDistribution(generator);std::sort(bData,bData+S-1);doublehelper1=bData[0],helper2;for(size_ts=1;s<S-1;++s){helper2=bData[s];bData[s]-=helper1;helper1=helper2;}bData[S-1]=1.0-helper1;returnb;}': None}),
     ('aliasSample', HPP, r'size_t\s+sampleProbability\s*\(\s*G\s*&\s*generator\s*\)\s*const\s*\{', {
         '{constautox=sampleDistribution_(generator);constinti=x;constautoy=x-i;if(y<prob_[i])returni;returnalias_[i];}': None}),
-    ('projectFixed', CPP, r'ProbabilityVector\s+projectToProbability\s*\(\s*const\s+Vector\s*&\s*v\s*\)\s*\{', {
-        '{ProbabilityVectorretval(v.size());doublesum=0.0;size_tcount=0;for(autoi=0;i<v.size();++i){if(v[i]<0.0)retval[i]=0.0;else{retval[i]=1.0;++count;sum+=v[i];}}if(checkEqualSmall(sum,1.0))returnretval;if(checkEqualSmall(sum,0.0)){retval.array()+=1.0/v.size();}elseif(sum>1.0){retval.array()*=v.array()/sum;}else{constautodiff=(1.0-sum)/count;retval.array()*=(v.array()+diff);}returnretval;}': False,
-        '{ProbabilityVectorretval(v.size());doublesum=0.0;size_tcount=0;for(autoi=0;i<v.size();++i){if(v[i]<0.0)retval[i]=0.0;else{retval[i]=1.0;++count;sum+=v[i];}}if(checkEqualSmall(sum,1.0)){retval.array()*=v.array();}elseif(checkEqualSmall(sum,0.0)){retval.fill(1.0/v.size());}elseif(sum>1.0){retval.array()*=v.array()/sum;}else{constautodiff=(1.0-sum)/count;retval.array()*=(v.array()+diff);}returnretval;}': True}),
-    ('voseFixed', CPP, r'VoseAliasSampler::VoseAliasSampler\s*\(\s*const\s+ProbabilityVector\s*&\s*p\s*\)\s*:.*?\{', {
-        '{constautoavg=1.0/prob_.size();autosmall=0,large=0;while(small<prob_.size()&&prob_[small]>=avg)++small;while(large<prob_.size()&&prob_[large]<avg)++large;autosmallCheckpoint=small;while(small<prob_.size()&&large<prob_.size()){prob_[large]=(prob_[large]+prob_[small])-avg;alias_[small]=large;if(prob_[large]<avg){small=large;++large;while(large<prob_.size()&&prob_[large]<avg)++large;}else{small=smallCheckpoint+1;while(small<prob_.size()&&prob_[small]>=avg)++small;smallCheckpoint=small;}}autox=std::min(large,small);while(x<prob_.size()){prob_[x]=1.0;alias_[x]=x;++x;while(x<prob_.size()&&alias_[x]!=0)++x;}prob_*=prob_.size();}': False,
-        '{constsize_tunassigned=prob_.size();constautoavg=1.0/prob_.size();autosmall=0,large=0;while(small<prob_.size()&&prob_[small]>=avg)++small;while(large<prob_.size()&&prob_[large]<avg)++large;autosmallCheckpoint=small;while(small<prob_.size()&&large<prob_.size()){prob_[large]=(prob_[large]+prob_[small])-avg;alias_[small]=large;if(prob_[large]<avg){small=large;++large;while(large<prob_.size()&&prob_[large]<avg)++large;}else{small=smallCheckpoint+1;while(small<prob_.size()&&(prob_[small]>=avg||alias_[small]!=unassigned))++small;smallCheckpoint=small;}}for(size_tx=0;x<unassigned;++x){if(alias_[x]==unassigned){prob_[x]=1.0;alias_[x]=x;}}prob_*=prob_.size();}': True}),
+    ('projectOverflowSafe', CPP, r'ProbabilityVector\s+projectToProbability\s*\(\s*const\s+Vector\s*&\s*v\s*\)\s*\{', {
+        '{ProbabilityVectorretval(v.size());doublesum=0.0;size_tcount=0;for(autoi=0;i<v.size();++i){if(v[i]<0.0)retval[i]=0.0;else{retval[i]=1.0;++count;sum+=v[i];}}if(checkEqualSmall(sum,1.0)){retval.array()*=v.array();}elseif(checkEqualSmall(sum,0.0)){retval.fill(1.0/v.size());}elseif(sum>1.0){retval.array()*=v.array()/sum;}else{constautodiff=(1.0-sum)/count;retval.array()*=(v.array()+diff);}returnretval;}': False,
+        '{ProbabilityVectorretval(v.size());doublesum=0.0;size_tcount=0;for(autoi=0;i<v.size();++i){if(v[i]<0.0)retval[i]=0.0;else{retval[i]=1.0;++count;sum+=v[i];}}if(checkEqualSmall(sum,1.0)){retval.array()*=v.array();}elseif(checkEqualSmall(sum,0.0)){retval.fill(1.0/v.size());}elseif(sum>1.0){if(std::isinf(sum)){retval.array()*=v.array()/v.maxCoeff();retval/=retval.sum();}elseretval.array()*=v.array()/sum;}else{constautodiff=(1.0-sum)/count;retval.array()*=(v.array()+diff);}returnretval;}': True}),
+    ('voseConstructor', CPP, r'VoseAliasSampler::VoseAliasSampler\s*\(\s*const\s+ProbabilityVector\s*&\s*p\s*\)\s*:.*?\{', {
+        '{constsize_tunassigned=prob_.size();constautoavg=1.0/prob_.size();autosmall=0,large=0;while(small<prob_.size()&&prob_[small]>=avg)++small;while(large<prob_.size()&&prob_[large]<avg)++large;autosmallCheckpoint=small;while(small<prob_.size()&&large<prob_.size()){prob_[large]=(prob_[large]+prob_[small])-avg;alias_[small]=large;if(prob_[large]<avg){small=large;++large;while(large<prob_.size()&&prob_[large]<avg)++large;}else{small=smallCheckpoint+1;while(small<prob_.size()&&(prob_[small]>=avg||alias_[small]!=unassigned))++small;smallCheckpoint=small;}}for(size_tx=0;x<unassigned;++x){if(alias_[x]==unassigned){prob_[x]=1.0;alias_[x]=x;}}prob_*=prob_.size();}': None}),
 ]
 
 # the member initialisers of the Vose constructor belong to the modelled form as well
-VOSE_INIT = {False: 'prob_(p),alias_(prob_.size()),sampleDistribution_(0,prob_.size())',
-             True: 'prob_(p),alias_(prob_.size(),prob_.size()),sampleDistribution_(0,prob_.size())'}
+VOSE_INIT = 'prob_(p),alias_(prob_.size(),prob_.size()),sampleDistribution_(0,prob_.size())'
 
 
 def gen_c08_variant():
@@ -68,9 +66,9 @@ def gen_c08_variant():
             errs.append(f'{name} ({rel}:{ln}) is not in a modelled form')
             continue
         val = forms[nb]
-        if name == 'voseFixed':
+        if name == 'voseConstructor':
             m = E.find1(r'VoseAliasSampler::VoseAliasSampler\s*\(\s*const\s+ProbabilityVector\s*&\s*p\s*\)\s*:(.*?)\{', srcs[rel], 'VoseAliasSampler initialisers', re.S)
-            if _norm(m.group(1)) != VOSE_INIT[val]:
+            if _norm(m.group(1)) != VOSE_INIT:
                 errs.append(f'VoseAliasSampler member initialisers ({rel}:{ln}) do not match the constructor body form')
                 continue
         rows.append((name, val, rel, ln))
